@@ -200,11 +200,11 @@ def body_inf(rec, q, r, dt):
 
 
 CHECKS = [
-    Check("add", body_add, lambda: {"c": add_case()}, quick=6000, thorough=120000),
-    Check("monotone", body_add_monotone, lambda: {"c": monotone_case()}, quick=3000, thorough=60000),
-    Check("compare_sub", body_compare, lambda: {"c": pair_case()}, quick=6000, thorough=120000),
-    Check("from_float", body_from_float, from_float_strategy, quick=3000, thorough=40000, quick_shards=2),
-    Check("infinity", body_inf, lambda: {"c": inf_case()}, quick=1500, thorough=20000, quick_shards=2,
+    Check("add", body_add, lambda: {"c": add_case()}, quick=6000, thorough=25000),
+    Check("monotone", body_add_monotone, lambda: {"c": monotone_case()}, quick=3000, thorough=12000),
+    Check("compare_sub", body_compare, lambda: {"c": pair_case()}, quick=6000, thorough=25000),
+    Check("from_float", body_from_float, from_float_strategy, quick=3000, thorough=10000, quick_shards=2),
+    Check("infinity", body_inf, lambda: {"c": inf_case()}, quick=1500, thorough=5000, quick_shards=2,
           thorough_shards=4),
 ]
 
